@@ -31,11 +31,18 @@ from .algebra import run_obligation, ObFail, custom_edge, CDIM
 class World:
     """A graph with uninterpreted edges, plus the observation hooks."""
 
-    def __init__(self, it, vtypes, edges, fixed, m=2):
+    def __init__(self, it, vtypes, edges, fixed, m=2, shared=None):
         self.it, self.vtypes, self.edge_spec, self.m = it, list(vtypes), list(edges), m
         self.dims = [CDIM[t] for t in vtypes]
         self.offs = [sum(self.dims[:k]) for k in range(len(self.dims))]
         self.poses0 = [sym_pose(t, "x%d" % k, unit=True) for k, t in enumerate(vtypes)]
+        if shared is not None:
+            # two point vertices whose poses were built from one and the same ndarray (PoseR2(arr) is a view of arr)
+            from .interp import sym_vec
+            i, j = shared
+            base = sym_vec("shared", self.dims[i])
+            self.poses0[i] = it.construct(vtypes[i], [base])
+            self.poses0[j] = it.construct(vtypes[j], [base])
         self.verts = [it.construct("Vertex", [Poly.const(100 + 7 * k), self.poses0[k]], dict(fixed=(k in fixed))) for k in range(len(vtypes))]
         self.edges = []
         self.state_ids = {}          # (edge index, pose key) -> small integer
@@ -260,11 +267,11 @@ def check_result(it, w, ret, entry_poses, tol, max_iter, label, fixed_now, fails
 check_result.solves_seen = 0
 
 
-def optimize_obligation(vtypes, edges, fixed, ffp, max_iter, verbose, second_call=False, refix=None):
+def optimize_obligation(vtypes, edges, fixed, ffp, max_iter, verbose, second_call=False, refix=None, shared=None):
     def fn(it):
         check_result.solves_seen = 0
         fails = Fails()
-        w = World(it, vtypes, edges, set(fixed))
+        w = World(it, vtypes, edges, set(fixed), shared=shared)
         tol = Poly.var("tol")
         entry = [Pose(p.cls, list(p.data)) for p in w.poses0]
         fixed_now = set(fixed) | ({0} if ffp else set())
@@ -319,6 +326,8 @@ SCENARIOS = [
     ("iter1/all-fixed", V3, E3, (0, 1, 2), False, 1, False, False),
     # 3-D: the ambient length of an SE(3) pose (7) differs from its number of unknowns (6)
     ("iter1/se3-mixed", ["PoseR3", "PoseSE3", "PoseR2", "PoseSE3"], [(1, 0), (3, 1), (2,), (0, 3)], (), True, 1, False, False),
+    # a fixed and a free landmark whose initial poses were created from the same ndarray
+    ("iter1/shared-initial-array", ["PoseR2", "PoseSE2", "PoseR2"], [(1, 0), (1, 2), (1,)], (), True, 1, False, False, None, (0, 2)),
 ]
 
 
@@ -327,5 +336,6 @@ def tasks(prefix, rule, where):
     for sc_ in SCENARIOS:
         name, vt, ed, fx, ffp, mi, vb, sc = sc_[:8]
         refix = sc_[8] if len(sc_) > 8 else None
-        out.append(("%s/optimize-semantics/%s" % (prefix, name), rule, optimize_obligation(vt, ed, fx, ffp, mi, vb, sc, refix), where))
+        shared = sc_[9] if len(sc_) > 9 else None
+        out.append(("%s/optimize-semantics/%s" % (prefix, name), rule, optimize_obligation(vt, ed, fx, ffp, mi, vb, sc, refix, shared), where))
     return out
